@@ -12,6 +12,7 @@ enum { FL_NONE, FL_ALLOC };
 static const char *const FAULTS[] = {"none", "allocfail", 0};
 
 struct IdentWorld : World {
+	IdentWorld() { registry_global = true; }
 	const char *name() const override { return "ident"; }
 	const char *const *opnames() const override { return OPS; }
 	const char *const *faultnames() const override { return FAULTS; }
